@@ -1,14 +1,15 @@
 #!/bin/bash
 # try_refactors.sh [<name> ...] : applies each behaviour-preserving refactoring under /verif/refactors/<name>/patch.diff to /repo in turn,
 # runs ALL quick checks, and restores the tree. Expected: every check exits 0 (a broken tie without a failing input is reported as such).
-cd /verif
+V=$(cd "$(dirname "$0")/.." && pwd); R="${VERIF_REPO:-/repo}"
+cd "$V"
 for n in ${@:-$(ls refactors)}; do
-  git -C /repo apply --whitespace=nowarn /verif/refactors/$n/patch.diff || { echo "$n: patch does not apply"; git -C /repo checkout -- .; continue; }
+  git -C "$R" apply --whitespace=nowarn "$V/refactors/$n/patch.diff" || { echo "$n: patch does not apply"; git -C "$R" checkout -- .; continue; }
   for p in C01 C02 C03 C04 C05 C06 C07 C08 C09 C10 C11 C12 C13 C14 C15 C16 C17 C18 C19 C20; do
     out=$(timeout 3000 bin/check $p --tier quick 2>&1); rc=$?
     [ $rc -ne 0 ] && echo "$n $p rc=$rc $(echo "$out" | grep -A1 -E 'VIOLATION' | head -4 | cut -c1-400 | tr '\n' '|')"
   done
   echo "$n done"
-  git -C /repo checkout -- .
+  git -C "$R" checkout -- .
 done
-git -C /repo status --short | head -3
+git -C "$R" status --short | head -3
